@@ -550,3 +550,21 @@ def validate_branching(module, cfg, trace, nchunks=NCPU, start_event='Call', tim
             out['transitions'] += t
             out['calls'] += c
     return out
+
+
+def tlaps(module, timeout=900):
+    """Check a TLAPS proof module with tlapm in a scratch directory; returns (obligations, proved).  A proof that does
+    not go through is a problem of the specification, reported as HarnessError."""
+    d = os.path.join(BUILD, 'tlaps_%d' % os.getpid())
+    shutil.rmtree(d, ignore_errors=True)
+    os.makedirs(d)
+    try:
+        shutil.copy(os.path.join(SPEC, module + '.tla'), d)
+        p = sh(['tlapm', '--stretch', '6', '--toolbox', '0', '0', module + '.tla'], timeout=timeout, cwd=d)
+        m = re.search(r'All (\d+) obligations? proved', p.stdout)
+        if not m:
+            raise HarnessError('tlapm did not prove %s:\n%s' % (module, p.stdout[-2000:]))
+        n = int(m.group(1))
+        return n, n
+    finally:
+        shutil.rmtree(d, ignore_errors=True)
